@@ -564,6 +564,7 @@ class Lowerer:
                         copy = True
             return self.mk('construct', node, args, type=strip_cvref(t), ctype=ctype, copy=copy,
                            elidable=bool(node.get('elidable')), listinit=bool(node.get('list')),
+                           zeroing=bool(node.get('zeroing')),
                            hep=('hep::' in (t or '') and not (t or '').startswith('std::')))
         if k == 'InitListExpr':
             return self.mk('initlist', node, [self.expr(c) for c in inner])
